@@ -368,7 +368,9 @@ theorem verifyThresholds_spec (env : Env K) (ord : Ord) (L : Layout K)
     simp only [verifyThresholds] at h
     split at h
     · cases h
-    · rename_i hlen
+    · rename_i hcond
+      have hlen : ¬ (goodLinks env ord L st (ord.perm 1 ((lookup st.name loaded).getD [])) []).length < st.threshold := by
+        intro c; apply hcond; simp [c]
       have ⟨h1, h2, h3, h4⟩ := ih _ h
       refine ⟨?_, ?_, ?_, fun hn => h4 (nodup_upsert _ _ hn)⟩
       · intro v hv
@@ -389,6 +391,41 @@ theorem verifyThresholds_spec (env : Env K) (ord : Ord) (L : Layout K)
           rw [h2 _ hnd.1, lookup_upsert_self]
           rfl
         · exact h3 hnd.2 s' hs'
+
+/-- a successful stage 4 has seen every step name once: none was in the table before, and the names
+    are pairwise distinct -/
+theorem verifyThresholds_names (env : Env K) (ord : Ord) (L : Layout K)
+    (loaded : List (Str × List (Str × Block K))) (steps : List Step)
+    (acc : List (Str × List (Str × Block K))) {verified : List (Str × List (Str × Block K))}
+    (h : verifyThresholds env ord L loaded steps acc = .ok verified) :
+    (∀ st ∈ steps, lookup st.name acc = none) ∧ (steps.map Step.name).Nodup := by
+  induction steps generalizing acc with
+  | nil => exact ⟨by simp, by simp⟩
+  | cons st rest ih =>
+    simp only [verifyThresholds] at h
+    split at h
+    · cases h
+    · rename_i hcond
+      have hfresh : lookup st.name acc = none := by
+        cases hl : lookup st.name acc with
+        | none => rfl
+        | some v => exfalso; apply hcond; simp [hl]
+      have ⟨h1, h2⟩ := ih _ h
+      refine ⟨?_, ?_⟩
+      · intro s' hs'
+        rcases List.mem_cons.mp hs' with rfl | hs'
+        · exact hfresh
+        · have := h1 s' hs'
+          by_cases e : s'.name = st.name
+          · rw [e, lookup_upsert_self] at this; cases this
+          · rwa [lookup_upsert_ne e] at this
+      · simp only [List.map_cons, List.nodup_cons]
+        refine ⟨?_, h2⟩
+        intro hm
+        obtain ⟨s', hs', e⟩ := List.mem_map.mp hm
+        have := h1 s' hs'
+        rw [e, lookup_upsert_self] at this
+        cases this
 
 end InToto.Verify
 
